@@ -73,6 +73,8 @@ impl Drop for Source {
 }
 
 fn busy(us: u32) {
+    // long stalls (lane "stall") also busy-wait: a thread that sleeps inside the processing function
+    // would be indistinguishable from one that is blocked in a real operation for the stuck detector
     let t = Instant::now();
     while t.elapsed() < Duration::from_micros(us as u64) {
         std::hint::spin_loop();
@@ -97,6 +99,14 @@ impl Prop for C05 {
                 .cap(tier.pick(120, 1500))
                 .hang(None)
                 .floor(tier.pick(2_000, 200_000)),
+            // a few cases in which one item (or the upstream) stalls for tens of seconds: anything
+            // that gives up after a while (a receive / send with a timeout, a bounded spin) ends the
+            // iteration early or reorders. One case per shard, the lane lasts as long as the stall.
+            Lane::new("stall", tier.pick(3, 6))
+                .cap(tier.pick(200, 600))
+                .hang(None)
+                .shards(tier.pick(3, 6))
+                .floor(1),
             Lane::new("chaos", tier.pick(480, 6_000))
                 .cap(tier.pick(150, 1500))
                 .hang(None)
@@ -113,8 +123,9 @@ impl Prop for C05 {
          consumer-first / consumer-last / starve-one; distinct_interleavings = distinct grant \
          sequences (participant, point). lane chaos: free running, W in {0,1,2,3,4,8,16,64}, n up to \
          3000 (thorough 8000), seeded delays at the points (yield / busy 1-60us / sleep <=1.5ms, \
-         boosted in the window between send and turn advance), slow items, consumer pauses. Oracle in \
-         both: output == [f(x0)..f(x_{n-1})] with f injective tags, every item processed exactly once \
+         boosted in the window between send and turn advance), slow items, slow upstream items, \
+         consumer pauses. lane stall: one item or one upstream pull stalls for 33 s (thorough: up to \
+         130 s), so that anything with a timeout or a bounded spin shows. Oracle in all lanes: output == [f(x0)..f(x_{n-1})] with f injective tags, every item processed exactly once \
          (per-item call counters), next() returns None after the n-th item and keeps returning None, \
          upstream iterator dropped (all workers exited). A state in which every live participant is \
          futile (spins at the same point / sleeps in a real blocking call) is a deadlock violation. \
@@ -144,6 +155,31 @@ impl Prop for C05 {
                 pause_every: 0,
                 pause_us: 0,
                 slow_src: vec![],
+            };
+        }
+        if lane == "stall" {
+            let threads = rng.random_range(1..=4u8);
+            let n = rng.random_range(3..=8usize);
+            // quick: 33 s; thorough: 33 s, 70 s or 130 s
+            let stall_us: u32 = match tier {
+                Tier::Quick => 33_000_000,
+                Tier::Thorough => *[33_000_000u32, 70_000_000, 130_000_000]
+                    .get(rng.random_range(0..3))
+                    .unwrap(),
+            };
+            let at = rng.random_range(0..n);
+            let in_upstream = rng.random_bool(0.3);
+            return Case {
+                lane: lane.to_string(),
+                threads,
+                n,
+                strategy: Strategy::Random,
+                sseed: rng.random(),
+                chaos_level: 0,
+                slow: if in_upstream { vec![] } else { vec![(at, stall_us)] },
+                pause_every: 0,
+                pause_us: 0,
+                slow_src: if in_upstream { vec![(at, stall_us)] } else { vec![] },
             };
         }
         if lane == "sched" {
@@ -343,8 +379,8 @@ impl Prop for C05 {
                     stuck = Some(d);
                     break;
                 }
-                if t0.elapsed() > Duration::from_secs(300) {
-                    obs.inconclusive("chaos run did not finish within 300 s wall clock");
+                if t0.elapsed() > Duration::from_secs(600) {
+                    obs.inconclusive("free running case did not finish within 600 s wall clock");
                     stuck = Some(String::new());
                     break;
                 }
@@ -427,7 +463,10 @@ impl Prop for C05 {
         if !dropped.load(Ordering::SeqCst) {
             obs.inconclusive("upstream iterator not dropped 10 s after the end of the iteration");
         }
-        let nt = if controlled {
+        obs.tag_if(c.lane == "stall", "long-stall");
+        let nt = if c.lane == "stall" {
+            true
+        } else if controlled {
             w >= 2 && c.n >= 3 && nontrivial_choices > 0
         } else {
             w >= 2 && c.n >= 3 && c.chaos_level > 0
